@@ -263,6 +263,48 @@ fn gen_tnd(r: &mut StdRng, i: u64, _thorough: bool) -> Src {
     Src { fmt: "tnd", w, h, mode: 2, pal: Some(pal), fonts: vec![None], cells, compress: false, sauce: true, class: format!("ncol={ncol}") }
 }
 
+/// one source picture for a configuration exported by TLC (Gen_BinFmt): the blocks / mode bits / sizes are given, the content is seeded
+fn from_config(r: &mut StdRng, v: &Value) -> Option<Src> {
+    let c = &v["cfg"];
+    let n = |k: &str| c[k].as_i64().unwrap_or(0);
+    Some(match v["fmt"].as_str()? {
+        "xb" => {
+            let (w, h) = (c["size"][0].as_i64()? as i32, c["size"][1].as_i64()? as i32);
+            let two = n("two") == 1;
+            let fh = n("fh") as u8;
+            let mode = if n("ice") == 1 { 2 } else { 1 };
+            let fonts = if two { vec![Some(rnd_font(r, fh, "c05 a")), Some(rnd_font(r, fh, "c05 b"))] } else if n("font") == 1 { vec![Some(rnd_font(r, fh, "c05 a"))] } else { vec![None] };
+            let pal = if n("pal") == 1 { Some(pal16_sixbit(r)) } else { None };
+            let cells = gen_cells(r, (w * h) as usize, &any_char, if two { 8 } else { 16 }, if mode == 2 { 16 } else { 8 }, mode != 2, if two { 2 } else { 1 });
+            Src { fmt: "xb", w, h, mode, pal, fonts, cells, compress: n("compress") == 1, sauce: false, class: format!("cfg:{c}") }
+        }
+        "bin" => {
+            let (w, h, mode) = (n("w") as i32, n("h") as i32, n("mode") as u8);
+            let cells = gen_cells(r, (w * h) as usize, &any_char, 16, if mode == 2 { 16 } else { 8 }, mode != 2, 1);
+            Src { fmt: "bin", w, h, mode, pal: None, fonts: vec![None], cells, compress: false, sauce: true, class: format!("cfg:{c}") }
+        }
+        "adf" => {
+            let h = n("h") as i32;
+            let cells = gen_cells(r, (80 * h) as usize, &any_char, 16, 16, false, 1);
+            Src { fmt: "adf", w: 80, h, mode: 2, pal: Some(pal16_sixbit(r)), fonts: vec![Some(rnd_font(r, 16, "c05 a"))], cells, compress: false, sauce: n("sauce") == 1, class: format!("cfg:{c}") }
+        }
+        "idf" => {
+            let (w, h) = (n("w") as i32, n("h") as i32);
+            let chars = |r: &mut StdRng| if r.gen_bool(0.1) { 1u8 } else { any_char(r) };
+            let cells = gen_cells(r, (w * h) as usize, &chars, 16, 16, false, 1);
+            Src { fmt: "idf", w, h, mode: 2, pal: Some(pal16_sixbit(r)), fonts: vec![Some(rnd_font(r, 16, "c05 a"))], cells, compress: n("compress") == 1, sauce: false, class: format!("cfg:{c}") }
+        }
+        "tnd" => {
+            let (w, h, ncol) = (n("w") as i32, n("h") as i32, n("ncol") as usize);
+            let pal: Vec<(u8, u8, u8)> = (0..ncol).map(|k| if k == 0 { (0, 0, 0) } else { (r.gen(), r.gen(), r.gen()) }).collect();
+            let chars = |r: &mut StdRng| if r.gen_bool(0.1) { r.gen_range(0..=7u8) } else { r.gen() };
+            let cells = gen_cells(r, (w * h) as usize, &chars, ncol as u32, ncol as u32, false, 1);
+            Src { fmt: "tnd", w, h, mode: 2, pal: Some(pal), fonts: vec![None], cells, compress: false, sauce: true, class: format!("cfg:{c}") }
+        }
+        _ => return None,
+    })
+}
+
 // ------------------------------------------------------------------------------------------------ events
 struct Ctx { out: Vec<Out>, bytes: Vec<usize>, id: u64, counts: std::collections::BTreeMap<String, u64>, files: Vec<(&'static str, Vec<u8>, bool)> }
 
@@ -343,11 +385,26 @@ pub fn c05(a: &Args) {
     let shards = a.usize("shards", 4).max(1);
     let seed = a.u64("seed", 0);
     let thorough = a.str("tier", "quick") == "thorough";
-    let scale = a.u64("scale", if thorough { 8 } else { 1 });
+    let scale = a.u64("scale", if thorough { 5 } else { 1 });
     let ml_limit = a.usize("ml-cells", 2600);
     let mut ctx = Ctx { out: (0..shards).map(|i| Out::create(&format!("{prefix}-{i}.ndjson"))).collect(), bytes: vec![0; shards], id: 0, counts: Default::default(), files: vec![] };
     let only = a.str("only", "");
     let index = a.m.get("index").and_then(|v| v.parse::<u64>().ok());
+    // (1) one picture per configuration exported by TLC (Gen_BinFmt -> gen/binfmt.ndjson); index = 1_000_000 + line number
+    let gen = a.str("gen", "gen/binfmt.ndjson");
+    let text = std::fs::read_to_string(&gen).unwrap_or_else(|e| { eprintln!("c05: cannot read {gen}: {e}"); std::process::exit(2) });
+    for (k, line) in text.lines().enumerate() {
+        let Ok(v) = serde_json::from_str::<Value>(line) else { continue };
+        let i = 1_000_000 + k as u64;
+        if !only.is_empty() && v["fmt"].as_str() != Some(only.as_str()) { continue; }
+        if let Some(ix) = index { if ix != i { continue; } }
+        let mut r = rng(seed, 9_000_000 + k as u64);
+        if let Some(s) = from_config(&mut r, &v) {
+            round_trip(&mut ctx, &s, ml_limit, i);
+            ctx.count("rt-from-tlc-config".to_string());
+        }
+    }
+    // (2) seeded random pictures
     let gens: [(&'static str, fn(&mut StdRng, u64, bool) -> Src, u64, u64); 5] =
         [("xb", gen_xb, 360, 1), ("bin", gen_bin, 150, 2), ("adf", gen_adf, 80, 3), ("idf", gen_idf, 150, 4), ("tnd", gen_tnd, 150, 5)];
     for (fmt, g, n, stream) in gens {
